@@ -494,6 +494,14 @@ func Run(id, tier string, seed int, workers int) int {
 			}
 			defer s.Close()
 			s.Fallback = "cvc5"
+			// second opinion on a sample of the unsat verdicts (per worker)
+			s.XEvery, s.XMax = 199, 25
+			if tier == "thorough" {
+				s.XEvery, s.XMax = 97, 400
+			}
+			if v := os.Getenv("VERIF_XCHECK_EVERY"); v != "" {
+				fmt.Sscanf(v, "%d", &s.XEvery)
+			}
 			m.Solver = s
 			if len(chk.RecordStubs) > 0 {
 				m.RecordStubs = map[string]bool{}
@@ -555,6 +563,9 @@ func Run(id, tier string, seed int, workers int) int {
 			}
 			statsMu.Lock()
 			totalStats.AddStats(s.Stats)
+			for _, n := range s.XNotes {
+				toolErrors = append(toolErrors, "solver cross-check: "+n)
+			}
 			statsMu.Unlock()
 		}()
 	}
@@ -970,6 +981,12 @@ func writeEvidence(chk *Check, tier string, seed int, t0 time.Time, results []ca
 		cov["solver_max_query_s"] = st.MaxQuery.Seconds()
 		cov["solvers"] = []string{"z3 4.8.12 (z3 -in, incremental push/pop, 8 s per-query limit)", "cvc5 1.0.3 (one-shot fallback when z3 answers unknown, 30 s limit)"}
 		cov["fallback_solver_queries"] = st.Fallbacks
+		cov["solvers"] = append(cov["solvers"].([]string), "second opinion on a sample of z3's unsat verdicts, one-shot, alternating cvc5 1.0.3 and z3 5.1.0 (30 s limit); a sat answer there overrides the verdict and its model is replayed")
+		cov["unsat_verdicts_cross_checked"] = st.XChecked
+		cov["cross_check_agree"] = st.XAgree
+		cov["cross_check_disagree"] = st.XDisagree
+		cov["cross_check_no_answer"] = st.XUnknown
+		cov["cross_check_time_s"] = st.XTime.Seconds()
 	}
 	ev := Evidence{PropertyID: chk.ID, Tier: tier, Seed: seed, Level: "model_checking", Coverage: cov,
 		Assumptions: chk.Assumptions, WallS: time.Since(t0).Seconds(), Violations: violations}
